@@ -44,7 +44,7 @@ Proof.
 Qed.
 
 (* fields: the specification tables are finite, every row is checked by computation *)
-Ltac each_row H := simpl in H; repeat (destruct H as [H|H]; [inversion H; subst; clear H|]); try (exfalso; exact H).
+Ltac each_row H := simpl in H; repeat (destruct H as [H|H]; [inversion H; subst; try clear H|]); try (exfalso; exact H).
 
 Lemma field_gated_lemma : forall cls t v0 v, In (cls, t, v0) SpecFieldVersions -> In v kmip_versions ->
   tag_allowed cls v t = ver_leb v0 v.
@@ -63,4 +63,23 @@ Lemma class_refused_lemma : forall cls v0 v, In (cls, v0) SpecClassVersions -> I
   class_refused_in "read" cls v = ver_ltb v v0 /\ class_refused_in "write" cls v = ver_ltb v v0.
 Proof.
   intros cls v0 v Hin Hv; each_row Hv; each_row Hin; split; vm_compute; reflexivity.
+Qed.
+
+(* all requests, all batches: a handler is only ever entered for an operation of the batch whose introducing
+   specification version is at most the version of the request, which is a supported one *)
+Lemma handlers_entered_respect_spec : forall St Payload handler (req : request Payload) (st : St) h,
+  In h (snd (process_request St Payload handler req st)) ->
+  In (rq_version req) supported_versions /\
+  exists it, In it (rq_items req) /\ lookup_handler (it_op it) = Some h /\
+             forall s, spec_op_min (it_op it) = Some s -> ver_leb s (rq_version req) = true.
+Proof.
+  intros St Payload handler req st h Hin.
+  destruct (process_request_trace_gated St Payload handler req st h Hin) as [Hv [it [Hi Hg]]].
+  split; [assumption|]; exists it; split; [assumption|split].
+  - unfold gate in Hg; destruct (lookup_handler (it_op it)) as [h'|]; [|discriminate].
+    destruct (existsb (decorator_refuses (rq_version req)) (handler_args h')); [discriminate|].
+    inversion Hg; reflexivity.
+  - intros s Hs; rewrite ver_leb_geb, ver_geb_negb_ltb.
+    destruct (ver_ltb (rq_version req) s) eqn:L; [|reflexivity].
+    pose proof (op_gated_spec _ _ _ Hv Hs L) as N; unfold gate_runs in N; rewrite Hg in N; discriminate.
 Qed.
